@@ -1036,7 +1036,7 @@ Section Recv.
   Lemma in_deliveries os p e q :
     In (p, e, q) (deliveries os) <-> In (ODeliver p e q) os \/ In (OPark p e q) os.
   Proof.
-    induction os as [|o os IH]; [cbn; tauto|].
+    clear snmask aopen hs_room. induction os as [|o os IH]; [cbn; tauto|].
     destruct o; cbn [deliveries In]; rewrite ?IH;
       try (split; [intros [H | H]; [left|right]; now right
                   | intros [[H | H] | [H | H]]; try discriminate; [now left|now right]]).
@@ -1048,7 +1048,7 @@ Section Recv.
 
   Lemma in_marks os e q : In (e, q) (marks os) <-> In (OMark e q) os.
   Proof.
-    induction os as [|o os IH]; [reflexivity|].
+    clear snmask aopen hs_room. induction os as [|o os IH]; [reflexivity|].
     destruct o; cbn [marks In]; rewrite ?IH; try (split; [intro H; now right | intros [H | H]; [discriminate|exact H]]).
     split; intros [H | H]; auto; left; now inversion H.
   Qed.
@@ -1748,6 +1748,197 @@ Section Recv.
     destruct (step W s op) as [s1 o1]. cbn [fst] in H1.
     specialize (IH s1 H1). destruct (run_ops W s1 ops) as [s2 o2]. exact IH.
   Qed.
+
+  (* ---------------------------------------------------------------- what Read returns *)
+
+  Lemma sublist_trans {A} : forall (c b a : list A), sublist a b -> sublist b c -> sublist a c.
+  Proof.
+    clear snmask aopen hs_room.
+    induction c as [|z c IH]; intros b a Hab Hbc.
+    - apply RecvSound.sublist_nil_r in Hbc. subst b. apply RecvSound.sublist_nil_r in Hab. subst a. exact I.
+    - destruct a as [|x a]; [apply RecvSound.sublist_nil_l|].
+      destruct b as [|y b]; [cbn in Hab; contradiction|].
+      cbn in Hbc. destruct Hbc as [[-> Hbc] | Hbc].
+      + cbn in Hab. destruct Hab as [[-> Hab] | Hab]; cbn.
+        * left. split; [reflexivity|]. eapply IH; eauto.
+        * right. eapply IH; eauto.
+      + cbn. right. eapply IH; [exact Hab|exact Hbc].
+  Qed.
+
+  Lemma sublist_map {A B} (f : A -> B) : forall (b a : list A), sublist a b -> sublist (map f a) (map f b).
+  Proof.
+    clear snmask aopen hs_room.
+    induction b as [|y b IH]; intros a H.
+    - apply RecvSound.sublist_nil_r in H. subst a. exact I.
+    - destruct a as [|x a]; [exact I|]. cbn in H. cbn [map]. cbn. destruct H as [[-> H] | H].
+      + left. split; [reflexivity|now apply IH].
+      + right. apply (IH (x :: a) H).
+  Qed.
+
+  Lemma reads_app a b : reads (a ++ b) = reads a ++ reads b.
+  Proof. clear snmask aopen hs_room. induction a as [|[] a IH]; cbn; auto; now rewrite IH. Qed.
+
+  Lemma reads_early l : reads (early_out l) = l.
+  Proof. clear snmask aopen hs_room. unfold early_out. induction l as [|[[p e] q] l IH]; cbn; auto. now rewrite IH. Qed.
+
+  (* parked payloads exist only while the handshake is incomplete *)
+  Definition EI (s : rstate) : Prop := r_estab s = true -> r_early s = [].
+
+  Lemma commit_reads W prot s e q : reads (snd (commit W prot s e q)) = [].
+  Proof. unfold commit. destruct prot; reflexivity. Qed.
+
+  Lemma dispatch_reads W prot s e q t body : EI s ->
+    sublist (reads (snd (dispatch W prot s e q t body)) ++ r_early (fst (dispatch W prot s e q t body)))
+            (r_early s ++ deliveries (snd (dispatch W prot s e q t body))) /\
+    r_estab (fst (dispatch W prot s e q t body)) = r_estab s /\ EI (fst (dispatch W prot s e q t body)).
+  Proof.
+    intro HE. destruct (commit_estab W prot s e q) as (Hce & Hcy & _ & _).
+    assert (Hsame : forall os, reads os = [] -> deliveries os = [] ->
+              sublist (reads os ++ r_early s) (r_early s ++ deliveries os)).
+    { intros os -> ->. rewrite app_nil_r. apply RecvSound.sublist_refl. }
+    assert (HEc : EI (fst (commit W prot s e q))) by (unfold EI; rewrite Hce, Hcy; exact HE).
+    unfold Rec13.dispatch. cbv zeta. destruct (t =? 22).
+    { destruct (r_estab s && (e =? 0)); [split; [now apply Hsame|auto]|].
+      destruct (hs_ok hs_room body); cbn [fst snd]; [|split; [now apply Hsame|auto]].
+      rewrite Hcy. split; [|auto]. apply Hsame; [now rewrite reads_app, commit_reads|now rewrite deliveries_app, commit_deliveries]. }
+    destruct (decode_content t body) as [p | level desc | | | ].
+    - destruct (e =? 0); [split; [now apply Hsame|auto]|].
+      destruct (r_estab s) eqn:Ees; cbn [fst snd].
+      + rewrite Hcy, (HE Ees). rewrite reads_app, commit_reads, deliveries_app, commit_deliveries. cbn.
+        split; [now left|auto].
+      + destruct (Nat.ltb (length (r_early s)) max_queue); cbn [fst snd with_early r_early r_estab].
+        * rewrite reads_app, commit_reads, deliveries_app, commit_deliveries. cbn [reads deliveries app].
+          split; [apply RecvSound.sublist_refl|]. split; [exact Hce|]. unfold EI. cbn [with_early r_estab]. rewrite Hce. discriminate.
+        * rewrite Hcy. split; [|auto]. apply Hsame; [apply commit_reads|apply commit_deliveries].
+    - destruct (r_estab s && (e =? 0)); [split; [now apply Hsame|auto]|].
+      destruct ((level =? 2) || (desc =? 0)); destruct (desc =? 0); cbn [fst snd app with_closed r_early r_estab];
+        rewrite Hcy; (split; [apply Hsame; [rewrite reads_app, commit_reads|rewrite deliveries_app, commit_deliveries]; reflexivity|]);
+        (split; [exact Hce|exact HEc]).
+    - destruct (e =? 0); cbn [fst snd]; [split; [now apply Hsame|auto]|].
+      rewrite Hcy. split; [|auto]. apply Hsame; [now rewrite reads_app, commit_reads|now rewrite deliveries_app, commit_deliveries].
+    - destruct ((e =? 0) || negb (r_rrc s)); cbn [fst snd]; [split; [now apply Hsame|auto]|].
+      rewrite Hcy. split; [|auto]. apply Hsame; [now rewrite reads_app, commit_reads|now rewrite deliveries_app, commit_deliveries].
+    - destruct (e =? 0); cbn [fst snd]; (split; [now apply Hsame|auto]).
+  Qed.
+
+  Lemma recv_record_reads W lease s b : EI s ->
+    sublist (reads (snd (recv_record W lease s b)) ++ r_early (fst (recv_record W lease s b)))
+            (r_early s ++ deliveries (snd (recv_record W lease s b))) /\
+    EI (fst (recv_record W lease s b)).
+  Proof.
+    intro HE.
+    assert (Hsame : forall s0, r_early s0 = r_early s -> r_estab s0 = r_estab s ->
+              sublist (reads (@nil out) ++ r_early s0) (r_early s ++ deliveries (@nil out)) /\ EI s0).
+    { intros s0 Hy He. cbn [reads deliveries app]. rewrite Hy, app_nil_r. split; [apply RecvSound.sublist_refl|].
+      unfold EI. rewrite Hy, He. exact HE. }
+    assert (Henq : forall s0, r_early s0 = r_early s -> r_estab s0 = r_estab s ->
+              sublist (reads (@nil out) ++ r_early (enqueue lease s0 b)) (r_early s ++ deliveries (@nil out)) /\ EI (enqueue lease s0 b)).
+    { intros s0 Hy He. destruct (enqueue_spec lease s0 b) as [(_ & _ & _ & _ & _ & _ & _ & _ & _ & E10 & E11) _].
+      apply Hsame; congruence. }
+    assert (Hdisp : forall prot s0 e q t body, r_early s0 = r_early s -> r_estab s0 = r_estab s ->
+              sublist (reads (snd (dispatch W prot s0 e q t body)) ++ r_early (fst (dispatch W prot s0 e q t body)))
+                      (r_early s ++ deliveries (snd (dispatch W prot s0 e q t body))) /\
+              EI (fst (dispatch W prot s0 e q t body))).
+    { intros prot s0 e q t body Hy He.
+      assert (HE0 : EI s0) by (unfold EI; rewrite Hy, He; exact HE).
+      destruct (dispatch_reads W prot s0 e q t body HE0) as (H1 & _ & H3). rewrite Hy in H1. auto. }
+    unfold Rec13.recv_record. destruct b as [|c b']; [now apply Hsame|].
+    destruct (is_ct13 c).
+    - unfold Rec13.recv_cipher. destruct (parse_crec s (c :: b')) as [[h ct]|]; [|now apply Hsame].
+      destruct (negb (has_prot s)); [now apply Henq|].
+      destruct (open_record s h ct) as [body t q e | | ].
+      + destruct (get_win W e _) as [mx w]. destruct (negb (check mx w q)); [now apply Hsame|].
+        destruct (maxseq48 <? q); [now apply Hsame|]. now apply Hdisp.
+      + cbn [fst snd]. destruct (queueable_epoch _ _); [now apply Henq|now apply Hsame].
+      + now apply Hsame.
+    - unfold Rec13.recv_legacy. destruct (length (c :: b') <? 13)%nat; [now apply Hsame|].
+      destruct (negb (legacy_version_ok (c :: b'))); [now apply Hsame|].
+      destruct (r_epoch s <? _).
+      { cbn [fst snd]. destruct (max_future (r_epoch s) <? _); [now apply Hsame|now apply Henq]. }
+      destruct (get_win W _ _) as [mx w]. destruct (negb (check mx w _)); [now apply Hsame|].
+      destruct (_ =? 0); [now apply Hdisp|].
+      destruct (negb (has_prot _)); [|now apply Hsame]. cbn [fst snd]. now apply Henq.
+  Qed.
+
+  Lemma reads_chain (R1 E1 E0 D1 R2 E2 D2 : list (bytes * N * N)) :
+    sublist (R1 ++ E1) (E0 ++ D1) -> sublist (R2 ++ E2) (E1 ++ D2) ->
+    sublist ((R1 ++ R2) ++ E2) (E0 ++ D1 ++ D2).
+  Proof.
+    clear snmask aopen hs_room. intros H1 H2.
+    rewrite <- app_assoc. apply (sublist_trans _ (R1 ++ E1 ++ D2)).
+    - apply RecvSound.sublist_app; [apply RecvSound.sublist_refl|exact H2].
+    - rewrite !app_assoc. apply RecvSound.sublist_app; [exact H1|apply RecvSound.sublist_refl].
+  Qed.
+
+  Lemma recv_list_reads W lease : forall rs s, EI s ->
+    sublist (reads (snd (recv_list W lease s rs)) ++ r_early (fst (recv_list W lease s rs)))
+            (r_early s ++ deliveries (snd (recv_list W lease s rs))) /\
+    EI (fst (recv_list W lease s rs)).
+  Proof.
+    induction rs as [|r rs IH]; intros s HE.
+    - cbn. rewrite app_nil_r. split; [apply RecvSound.sublist_refl|exact HE].
+    - cbn [Rec13.recv_list]. pose proof (recv_record_reads W lease s r HE) as [H1 HE1].
+      destruct (recv_record W lease s r) as [s1 o1]. cbn [fst snd] in *.
+      destruct (existsb is_err o1); [split; assumption|].
+      specialize (IH s1 HE1). destruct (recv_list W lease s1 rs) as [s2 o2]. cbn [fst snd] in *.
+      destruct IH as [H2 HE2]. split; [|exact HE2].
+      rewrite reads_app, deliveries_app. now apply (reads_chain _ (r_early s1)).
+  Qed.
+
+  Lemma run_reads W : forall ops s, EI s ->
+    sublist (reads (snd (run_ops W s ops)) ++ r_early (fst (run_ops W s ops)))
+            (r_early s ++ deliveries (snd (run_ops W s ops))) /\
+    EI (fst (run_ops W s ops)).
+  Proof.
+    induction ops as [|o ops IH]; intros s HE.
+    - cbn. rewrite app_nil_r. split; [apply RecvSound.sublist_refl|exact HE].
+    - cbn [Rec13.run_ops].
+      assert (Hstep : sublist (reads (snd (step W s o)) ++ r_early (fst (step W s o)))
+                              (r_early s ++ deliveries (snd (step W s o))) /\ EI (fst (step W s o))).
+      { assert (Hsame : forall s0, r_early s0 = r_early s -> r_estab s0 = r_estab s ->
+                  sublist (reads (@nil out) ++ r_early s0) (r_early s ++ deliveries (@nil out)) /\ EI s0).
+        { intros s0 Hy He. cbn [reads deliveries app]. rewrite Hy, app_nil_r. split; [apply RecvSound.sublist_refl|].
+          unfold EI. rewrite Hy, He. exact HE. }
+        destruct o as [d | e | e | | cid neg rrc | ]; cbn [Rec13.step].
+        - unfold Rec13.recv13. destruct (r_closed s); [now apply Hsame|].
+          destruct (unpack_datagram13 s d) as [rs|]; [now apply recv_list_reads|now apply Hsame].
+        - now apply Hsame.
+        - now apply Hsame.
+        - cbn [fst snd]. fold (early_out (r_early s)). rewrite reads_early, deliveries_early.
+          cbn [with_estab r_early]. rewrite !app_nil_r. split; [apply RecvSound.sublist_refl|]. intros _. reflexivity.
+        - now apply Hsame.
+        - destruct (r_closed s); [now apply Hsame|].
+          assert (HE0 : EI (with_queue s [])) by exact HE.
+          exact (recv_list_reads W false (r_queue s) (with_queue s []) HE0). }
+      destruct (step W s o) as [s1 o1]. cbn [fst snd] in Hstep. destruct Hstep as [H1 HE1].
+      specialize (IH s1 HE1). destruct (run_ops W s1 ops) as [s2 o2]. cbn [fst snd] in *.
+      destruct IH as [H2 HE2]. split; [|exact HE2].
+      rewrite reads_app, deliveries_app. now apply (reads_chain _ (r_early s1)).
+  Qed.
+
+  (* Read returns only payloads that were accepted for Read (or were parked already), in the order of
+     acceptance ... *)
+  Theorem reads_are_accepted W ops s : EI s ->
+    sublist (reads (snd (run_ops W s ops))) (r_early s ++ deliveries (snd (run_ops W s ops))).
+  Proof.
+    intro HE. destruct (run_reads W ops s HE) as [H _].
+    eapply sublist_trans; [|exact H].
+    rewrite <- (app_nil_r (reads (snd (run_ops W s ops)))) at 1.
+    apply RecvSound.sublist_app; [apply RecvSound.sublist_refl|apply RecvSound.sublist_nil_l].
+  Qed.
+
+  (* ... and, C06 at the level of Read: over every history - early application data parked during the
+     handshake included - no (epoch, record number) is returned by Read twice *)
+  Theorem reads_nodup W cid neg rrc ops : N.of_nat W <= maxseq48 ->
+    NoDup (RecvSound.recnums (reads (snd (run_ops W (rinit cid neg rrc) ops)))).
+  Proof.
+    intro HW.
+    assert (HE : EI (rinit cid neg rrc)) by (intro H; discriminate H).
+    pose proof (reads_are_accepted W ops (rinit cid neg rrc) HE) as H. cbn [rinit r_early app] in H.
+    eapply RecvSound.sublist_NoDup; [|apply (deliveries_nodup W cid neg rrc ops HW)].
+    unfold RecvSound.recnums. now apply sublist_map.
+  Qed.
+
 End Recv.
 
 (* ------------------------------------------------------------------ the AEAD idealisation *)
@@ -1790,10 +1981,25 @@ Section Ideal.
   Proof.
     intro H. apply in_deliveries in H.
     assert (Ho : exists lease s' r, In (p, e, q) (deliveries (snd (recv_record snmask aopen hs_room W lease s' r)))).
-    { destruct H as [H | H]; (apply run_origin in H; [|reflexivity]); destruct H as (lease & s' & r & H);
-        exists lease, s', r; apply in_deliveries; [left|right]; exact H. }
-    destruct Ho as (lease & s' & r & H). apply deliver_only_sealed in H.
+    { destruct H as [H | H].
+      - apply run_origin in H; [|reflexivity]. destruct H as (lease & s' & r & H).
+        exists lease, s', r. apply in_deliveries. now left.
+      - apply run_origin in H; [|reflexivity]. destruct H as (lease & s' & r & H).
+        exists lease, s', r. apply in_deliveries. now right. }
+    destruct Ho as (lease & s' & r & Hd). clear H. rename Hd into H. apply deliver_only_sealed in H.
     destruct H as (He & _ & _ & _ & h & ct & inner & _ & _ & _ & Hl & Hi). split; [exact He|]. eauto.
+  Qed.
+
+  (* whatever Read returns - at once or from the payloads parked during the handshake - is application
+     data the peer sealed *)
+  Theorem run_read_sealed W ops s p e q : r_early s = [] ->
+    In (p, e, q) (reads (snd (run_ops snmask aopen hs_room W s ops))) ->
+    e <> 0 /\ exists a c i, In (e, q, a, c, i) log /\ inner_unmarshal i = Some (p, 23).
+  Proof.
+    intros Hy H. apply (run_deliver_sealed W ops s).
+    assert (HE : EI s) by (intros _; exact Hy).
+    pose proof (reads_are_accepted snmask aopen hs_room W ops s HE) as Hs. rewrite Hy in Hs. cbn [app] in Hs.
+    eapply RecvSound.sublist_In; eauto.
   Qed.
 
   (* every commit of a replay slot - an unprotected record never commits one - is a tuple the peer sealed *)
@@ -1888,13 +2094,13 @@ Section Ideal.
   (* C05 for an established connection, epoch 0 included: every visible output over every later
      history traces back to a tuple the peer sealed, and so does every committed replay slot *)
   Theorem established_effects_sealed W ops s o :
-    r_estab s = true -> QI s -> In o (snd (run_ops snmask aopen hs_room W s ops)) ->
+    r_estab s = true -> r_early s = [] -> QI s -> In o (snd (run_ops snmask aopen hs_room W s ops)) ->
     match o with
     | OMark e q => exists a c i, In (e, q, a, c, i) log
     | _ => exists e q a c i, In (e, q, a, c, i) log
     end.
   Proof.
-    intros Hes HQ H. apply established_outputs_from_ciphertext in H; auto.
+    intros Hes Hey HQ H. apply established_outputs_from_ciphertext in H; auto.
     destruct H as (lease & s' & b & _ & H).
     assert (Hany : exists e q a c i, In (e, q, a, c, i) log).
     { apply (effect_only_sealed W lease s' b). intro Hn. rewrite Hn in H. destruct H. }
@@ -1908,7 +2114,7 @@ End Ideal.
 
 
 (* an established DTLS 1.3 receiver: application keys (epoch 3) current, handshake keys (epoch 2) retained *)
-Definition est_state : rstate := mk_rstate 3 (Some 3) [2] [] [] [] [] false false false true.
+Definition est_state : rstate := mk_rstate 3 (Some 3) [2] [] [] [] [] false false false true [].
 (* alert(21) {254,253} epoch 0, record number 4138, length 2: fatal(2) internal_error(80) *)
 Definition plain_alert : bytes := [21; 254; 253; 0; 0; 0; 0; 0; 0; 16; 42; 0; 2; 2; 80].
 (* handshake(22) epoch 0 number 4263: KeyUpdate(24) length 1 message_seq 7 fragment 0..1, update_not_requested *)
@@ -1931,7 +2137,7 @@ Proof. split; [reflexivity|]. split; [reflexivity|]. intros. split; [|split]; vm
 (* ... while the handshake is still running an unprotected fatal alert aborts it, as before *)
 Theorem unprotected_alert_during_handshake :
   forall snmask aopen hs_room,
-    snd (recv13 snmask aopen hs_room 64 (rinit [] false false) plain_alert) = [OMark 0 4138; OAlertIn 0 4138 2 80; OClosed].
+    snd (recv13 snmask aopen hs_room 64 (rinit [] false false) plain_alert) = [OAlertIn 0 4138 2 80; OClosed].
 Proof. intros. vm_compute. reflexivity. Qed.
 
 (* once the handshake is complete an unprotected handshake record (here a KeyUpdate carrying
@@ -1948,7 +2154,7 @@ Proof. intros. split; [|split]; vm_compute; reflexivity. Qed.
 Theorem unprotected_handshake_during_handshake :
   forall snmask aopen,
     snd (recv13 snmask aopen (fun _ => true) 64 (rinit [] false false) plain_keyupdate) =
-    [OMark 0 4263; OHs 0 4263 [24; 0; 0; 1; 0; 7; 0; 0; 0; 0; 0; 1; 0]].
+    [OHs 0 4263 [24; 0; 0; 1; 0; 7; 0; 0; 0; 0; 0; 1; 0]].
 Proof. intros. vm_compute. reflexivity. Qed.
 
 (* an unprotected ACK is discarded without any effect (regression of the repaired defect) *)
@@ -1976,7 +2182,7 @@ Definition tol_state : rstate :=
   mk_rstate 3 (Some 3) [2]
     [(maxseq48, win_init 256); (maxseq64, win_init 256); (maxseq64, win_init 256);
      (maxseq64, {| latest := 200; mask := true :: repeat false 255 |})]
-    [0; 0; 0; 200] [] [] false false false true.
+    [0; 0; 0; 200] [] [] false false false true [].
 Definition tol_record : bytes := [39; 5; 0; 16] ++ repeat 0 16.
 Definition tol_open (e q : N) (a c : bytes) : option bytes :=
   if (e =? 3) && (q =? 5) then Some [104; 105; 23] else None.
@@ -1989,6 +2195,29 @@ Theorem tolerance13_large_window_refuted :
   (* yet nothing is delivered and nothing changes *)
   recv_cipher (fun _ _ => 0) tol_open (fun _ => true) 256 true tol_state tol_record = (tol_state, []).
 Proof. split; [reflexivity|]. split; vm_compute; reflexivity. Qed.
+
+(* K-C06-2, the concrete numbers: replay window 40000, newest record 32799, record 0 arrives: 32799 behind,
+   inside the window, but its 16-bit wire number 0 is rebuilt as 65536 *)
+Theorem k_c06_2_witness :
+  32799 - 0 < 40000 /\ 0 + 32768 <= 32799 + 1 /\ reconstruct (0 mod 65536) true 32799 = 65536.
+Proof. split; [reflexivity|]. split; [discriminate|]. vm_compute. reflexivity. Qed.
+
+(* K-C06-2 in the model: a record whose number lies half the 16-bit range (or more) behind the
+   expected one is rebuilt to a different number, whatever the configured replay window; if its
+   ciphertext opens at its own number only, no generation opens it *)
+Theorem far_behind_not_opened (snmask : N -> bytes -> N) (aopen : N -> N -> bytes -> bytes -> option bytes) s h ct e q :
+  get_high e (r_high s) < 9223372036854775808 ->
+  u_sbit (apply_mask h (snmask e ct)) = true ->
+  u_seq (apply_mask h (snmask e ct)) = q mod 65536 ->
+  q + 32768 <= get_high e (r_high s) + 1 ->
+  (forall q' a, q' <> q -> aopen e q' a ct = None) ->
+  open_gen snmask aopen s h ct e = None.
+Proof.
+  intros Hh Hs Hq Hfar Honly. unfold open_gen. rewrite Hs, Hq.
+  destruct (negb (lowbits_ok _ _)); [reflexivity|].
+  rewrite Honly; [reflexivity|].
+  apply (reconstruct_out_of_range q true); [exact Hh|exact Hfar].
+Qed.
 
 (* ------------------------------------------------------------------ send side *)
 Notation incr_per_epoch := SendSound.incr_per_epoch.
@@ -2384,7 +2613,7 @@ Section Genuine.
      epoch accepts its number *)
   Corollary genuine_delivered_iff_window hs_room W lease st e body st' x s :
     send_record snmask aseal overhead st e 23 body = (st', Some x) ->
-    r_cid s = s_cid st -> has_gen s e = true -> e <= r_epoch s -> e <> 0 -> has_prot s = true ->
+    r_cid s = s_cid st -> has_gen s e = true -> e <= r_epoch s -> e <> 0 -> has_prot s = true -> room s = true ->
     get_high e (r_high s) < 9223372036854775808 ->
     get_high e (r_high s) + 1 < em_seq x + 32768 -> em_seq x <= get_high e (r_high s) + 1 + 32768 ->
     (forall e', e' <> e -> forall q' a', aopen e' q' a' (em_ct x) = None) ->
@@ -2393,7 +2622,7 @@ Section Genuine.
              (snd (get_win W e (ensure_wins W maxseq64 e (r_wins s)))) (em_seq x)
     then [(body, e, em_seq x)] else [].
   Proof.
-    intros Hsend Hcid Hgen Hle He Hp Hh Hr1 Hr2 Hother.
+    intros Hsend Hcid Hgen Hle He Hp Hroom Hh Hr1 Hr2 Hother.
     pose proof (genuine_record_authenticates st e 23 body st' x s Hsend eq_refl Hcid Hgen Hle Hh Hr1 Hr2 Hother) as Ha.
     apply authentic_delivered_iff_window; auto.
     pose proof (send_record_spec snmask aseal overhead st e 23 body) as Hs. cbn zeta in Hs.
